@@ -461,7 +461,9 @@ def handle : List String → String
       -- a decoder answer the harness did not supply must not matter: run with two defaults
       let a := showResult q (runQuery q (decOf tbl fun _ => none) ds)
       let b := showResult q (runQuery q (decOf tbl fun raw => some (List.replicate raw 0)) ds)
-      if a == b then a else "oracle-missing"
+      -- the listing (`ReadMetadata`) is only required not to crash: the reader process reports `fine`
+      -- whenever it survives the query
+      if a == b then (if a == "panic" || a == "oom" then a else a ++ " list=fine") else "oracle-missing"
     | _, _, _ => "bad-args"
   | _ => "bad-args"
 
